@@ -108,6 +108,21 @@ pub fn spec(property: &str, tier: &str) -> Option<CheckSpec> {
 			vec!["real blocks stay within one 1024-bit chunk; several chunks are covered by txhsim with synthetic outputs"],
 			vec!["reorg"],
 		)),
+		"C09" => {
+			let mut sp = s(
+				"crashsim",
+				"fault_enumeration",
+				if quick { 16 } else { 96 },
+				"case = one generated chain (every 4th case an 85+ block chain for compaction) with scenarios: plain extension (spending recent / pre-header-v3 outputs), header-then-block, fork block that does not win, reorg with spends, header-only reorg via sync_block_headers, compaction, compaction followed by a block, block after a completed compaction (spending outputs older than the compaction tail / recent); evaluation = one labelled crash point: a forked child copies the base directory, opens the chain, runs the operation and _exits at that point, the parent reopens the directory and checks: Chain::init Ok, head is old/new/ancestor, validate(false), unspent set == ledger of the reopened head, second reopen identical, re-delivery converges to the uninterrupted twin. Every crash point of every scenario is enumerated (coverage.crash_points_enumerated == crash_points_total); distinct = (world, scenario, point)",
+				vec![
+					"fault model: process death; data written before the point survives (page cache). Power-loss semantics are stronger than the property and are not an alarm source",
+					"crash points are the cfg(grin_verif) hooks after each durable step (temp-file create/write/fsync/rename, append-only file truncate/append/fsync, file replace remove/rename, compaction steps, LMDB commit, txhashset extension syncs, chain batch commits)",
+				],
+				vec!["reopened_on_old_head", "reopened_on_new_head"],
+			);
+			sp.case_timeout_s = if quick { 1500 } else { 3600 };
+			Some(sp)
+		}
 		"C08" => {
 			let mut sp = s(
 				"storesim+chainsim",
@@ -621,6 +636,7 @@ pub fn replay_chainsim(rp: &Value) -> Result<Option<Violation>, String> {
 pub fn run_case(property: &str, tier: &str, seed: u64, case: u64) -> CaseResult {
 	match property {
 		p if CHAINSIM_PROPS.contains(&p) => chainsim_case(property, tier, seed, case),
+		"C09" => crate::crashsim::case(tier, seed, case),
 		"C08" => {
 			if case % 4 == 3 {
 				let mut r = chainsim_case(property, tier, seed, case);
